@@ -96,7 +96,7 @@ PROPS = {
         "assumptions": COMMON_ASSUMPTIONS + ["random inputs up to ~2 KiB; targeted inputs up to 131 KiB (16-bit sums near 65 535 with the octets really present)", "per-case watchdog 10 s (quick) / 30 s (thorough) without progress; after three hangs the remaining cases are not run"],
     },
     "C02": {
-        "mc": DEC_MODELS + ["hid_reveal", "len_tlc", "len_base", "len_step", "len_tlaps"], "gen": ["decode_readers", "avps_readers", "payload_readers", "reveal"], "readers": "all",
+        "mc": DEC_MODELS + ["hid_reveal", "len_tlc", "len_base", "len_step", "len_tlaps"], "gen": ["decode_readers", "avps_readers", "payload_readers", "reveal", "avp_lengths", "octet_sweep", "text_classes", "record_product", "kind_pairs", "small_values"], "readers": "all",
         "rule": "as C01, every input decoded through SliceReader, a monitoring reader that logs each request with the "
                 "octets remaining, and a queue-backed reader; every logged request validated against the Reader contract "
                 "machine; the three outcomes must coincide",
